@@ -82,6 +82,11 @@ pub fn history_case(g: &mut Gen, cfg: &PicCfg) -> Verdict {
         };
     }
 
+    // a quarter of the histories start on a decoder that has already seen other data
+    if g.chance(1, 4) {
+        let small = PicCfg { max_dim: 48, max_fixed_mbs: 48, budget: 250, extreme_aspect: false, ..*cfg };
+        labels.extend(prehistory(g, &mut st, mode, version, &small));
+    }
     let ipic = gen_intra_pic_with(g, cfg, mode, version, size);
     let ibytes = encode_pic(&ipic);
     match decode_bytes(&mut st, &ibytes) {
